@@ -143,7 +143,7 @@ def mk(src, lang, rng, origin, cfg_rng=None):
 
 def make_strategy():
     from hypothesis import strategies as st
-    return st.tuples(st.one_of(gen_c.c_program(max_depth=3, max_funcs=2).map(lambda t: ('C', t)), gen_cpp.cpp_program(max_snippets=3).map(lambda t: ('CPP', t))),
+    return st.tuples(st.one_of(gen_c.c_program(max_depth=3, max_funcs=2, pp_split=True).map(lambda t: ('C', t)), gen_cpp.cpp_program(max_snippets=3).map(lambda t: ('CPP', t))),
                      st.integers(0, 2 ** 32 - 1), st.floats(0, 1, allow_nan=False))
 
 
